@@ -7,6 +7,7 @@ package search
 import (
 	"fmt"
 	"reflect"
+	"strings"
 
 	"github.com/paulsonkoly/chess-3/board"
 	. "github.com/paulsonkoly/chess-3/chess"
@@ -157,6 +158,181 @@ func VpV_C08_sweep() {
 
 func VpV_C08_case() {
 	what := vpC08Case(vp.Str("fen"), vp.Param("k"))
+	vp.Assert(what == "", "real-search-case "+what)
+}
+
+// vpC07Case checks C07's statement on everything a sequence of real searches of one root on one engine reports.
+// k = table*10000 + pattern*100 + depth: table 0 = 1 MB, 1 = 64 KB (collision-heavy); pattern 0 = depth limits
+// 1..depth in turn (fresh table first, warmed afterwards), pattern 1 = the same depth limit twice.
+// Returns "" if all is well.
+func vpC07Case(fen string, k int) string {
+	b, err := board.FromFEN(fen)
+	if err != nil {
+		return ""
+	}
+	size := 1 * transp.MegaBytes
+	if k/10000 == 1 {
+		size = 64 * 1024
+	}
+	pattern, depth := k%10000/100, k%100
+	if !board.VpValid(b) {
+		return "" // the repository's test files also contain positions outside the property's domain
+	}
+	legalRoot := vpLegalMoves(b)
+	if len(legalRoot) == 0 || b.FiftyCnt >= 100 || b.Threefold() >= 3 {
+		return ""
+	}
+	var depths []int
+	if pattern == 0 {
+		for d := 1; d <= depth; d++ {
+			depths = append(depths, d)
+		}
+	} else {
+		depths = []int{depth, depth}
+	}
+	s := New(size)
+	for _, d := range depths {
+		var out strings.Builder
+		_, m, ponder := s.Go(b, WithDepth(Depth(d)), WithOutput(&out))
+		lastDepth, lastNodes := -1, -1
+		var line []string
+		for _, l := range strings.Split(out.String(), "\n") {
+			f := strings.Fields(l)
+			if len(f) < 4 || f[0] != "info" || f[1] != "depth" || f[3] != "score" {
+				continue
+			}
+			var dep, nodes int
+			fmt.Sscan(f[2], &dep)
+			pv := []string(nil)
+			for i := 4; i < len(f); i++ {
+				if f[i] == "nodes" && i+1 < len(f) {
+					fmt.Sscan(f[i+1], &nodes)
+				}
+				if f[i] == "pv" {
+					pv = f[i+1:]
+					break
+				}
+			}
+			if dep <= lastDepth {
+				return "reported-depth-not-increasing"
+			}
+			if nodes < lastNodes {
+				return "reported-nodes-decreasing"
+			}
+			lastDepth, lastNodes = dep, nodes
+			// the variation is a legal line from the root
+			c, _ := board.FromFEN(fen)
+			for _, ms := range pv {
+				found := false
+				for _, lm := range vpLegalMoves(c) {
+					if lm.String() == ms {
+						c.MakeMove(lm)
+						found = true
+						break
+					}
+				}
+				if !found {
+					return "reported-variation-not-a-legal-line"
+				}
+			}
+			if len(pv) > 0 {
+				line = pv
+			}
+		}
+		if len(line) > 0 && m.String() != line[0] {
+			return "returned-move-not-first-of-last-variation"
+		}
+		if m == 0 {
+			return "null-move-on-non-final-root"
+		}
+		okm := false
+		for _, lm := range legalRoot {
+			if lm == m {
+				okm = true
+			}
+		}
+		if !okm {
+			return "illegal-move-returned"
+		}
+		if ponder != 0 {
+			c, _ := board.FromFEN(fen)
+			c.MakeMove(m)
+			okp := false
+			for _, lm := range vpLegalMoves(c) {
+				if lm == ponder {
+					okp = true
+				}
+			}
+			if !okp {
+				return "ponder-move-not-legal-after-the-move"
+			}
+		}
+	}
+	return ""
+}
+
+// hand-written roots for the C07 sweep: bare and pawn endings, where repetitions, the 50-move rule and exact table
+// hits cut lines short; the sweep adds every root with its halfmove clock moved close to 100 and a sample of the
+// repository's own test positions.
+var vpSweepFENsC07 = []string{
+	"4k3/8/8/8/8/8/8/4K2R w K - 0 1",
+	"8/8/8/3k4/8/3K4/3P4/8 w - - 0 1",
+	"8/3k4/3p4/8/3P4/3K4/8/8 b - - 0 1",
+	"8/8/7k/7p/7P/7K/8/8 w - - 0 1",
+	"8/8/4k3/8/8/4K3/8/4R3 w - - 0 1",
+	"8/6pk/8/8/8/8/1Q6/K7 w - - 0 1",
+	"k7/8/1K6/8/8/8/8/6Q1 w - - 0 1",
+	"6k1/5ppp/8/8/8/8/5PPP/3R2K1 w - - 0 1",
+	"8/5k2/8/4p3/4P3/8/5K2/8 w - - 0 1",
+	"8/1p4k1/8/8/8/8/1P4K1/8 b - - 0 1",
+}
+
+// vpWithClock rewrites the halfmove clock field of a FEN.
+func vpWithClock(fen string, clock int) string {
+	f := strings.Fields(fen)
+	if len(f) < 6 {
+		return fen
+	}
+	f[4] = fmt.Sprint(clock)
+	return strings.Join(f, " ")
+}
+
+// VpV_C07_sweep looks for a concrete (root, table, search sequence) on which the real search violates C07's
+// statement.
+func VpV_C07_sweep() {
+	n := 0
+	roots := append(append([]string(nil), vpSweepFENsC07...), vpSweepFENs...)
+	hand := len(roots)
+	if corpus := vp.Corpus(); len(corpus) > 0 {
+		step := len(corpus)/120 + 1
+		for i := 0; i < len(corpus); i += step {
+			roots = append(roots, corpus[i])
+		}
+	}
+	for ri, root := range roots {
+		maxd := 7
+		if ri < hand {
+			maxd = 10
+		}
+		for _, fen := range []string{root, vpWithClock(root, 96), vpWithClock(root, 99)} {
+			for table := 0; table < 2; table++ {
+				for _, k := range []int{maxd, 103, 105} {
+					n++
+					k += table * 10000
+					if what := vpC07Case(fen, k); what != "" {
+						vp.Confirmed(what, fen, k)
+						fmt.Println("VP-CORPUS-POSITIONS", n)
+						return
+					}
+				}
+			}
+		}
+	}
+	fmt.Println("VP-CORPUS-POSITIONS", n)
+}
+
+func VpV_C07_case() {
+	what := vpC07Case(vp.Str("fen"), vp.Param("k"))
 	vp.Assert(what == "", "real-search-case "+what)
 }
 
